@@ -12,7 +12,7 @@
 (*    replay case: (type, encoding, every applicable (path, class)).        *)
 EXTENDS JsonDict, TLC, Json, IOUtils
 
-CONSTANTS Mode
+CONSTANTS Mode, Depth
 
 \* ---------------- model oracles ----------------
 RECURSIVE PL(_, _)
@@ -87,7 +87,7 @@ D2 == D1 \cup {OptT(t) : t \in D1v} \cup {VecT(t) : t \in D1c} \cup {VecT(TupT(<
          \cup {TupT(<<a, b>>) : a \in D0s, b \in D1c} \cup {ArrT(t, 2) : t \in D1c}
 Named == {RefT("Inner"), RefT("Upper"), RefT("New"), RefT("NewOpt"), RefT("En"), RefT("Sub"), RefT("Outer"), RefT("Empty"),
           RefT("Blk"), RefT("Pos"), VecT(RefT("Inner")), OptT(RefT("Upper")), TupT(<<RefT("New"), RefT("Upper")>>), VecT(RefT("Pos"))}
-ModelTypes == D2 \cup Named
+ModelTypes == (IF Depth >= 2 THEN D2 ELSE D1) \cup Named
 
 Pairs(A, B) == {<<a, b>> : a \in A, b \in B}
 OptOf(S) == {<<>>} \cup {<<v>> : v \in S}
@@ -177,12 +177,20 @@ RoundTrip == IsVal => LET r == FromJ(Ctx, x.t, ToJ(Ctx, x.t, x.v)) IN r.ok /\ r.
 CorruptRejected == IsVal =>
   LET j == ToJ(Ctx, x.t, x.v) IN
   \A pc \in AllCorr(Ctx, x.t, j) :
-    LET cj == Corrupt(Ctx, x.t, j, pc[1], pc[2])
-        r == FromJ(Ctx, x.t, cj)
+    LET r == LocalFromJ(Ctx, x.t, j, pc[1], pc[2])
     IN /\ ~r.ok /\ r.why = "syntax"
        /\ Applicable(Ctx, x.t, j, pc[1], pc[2])
-       /\ ~JEq(cj, j)
        /\ Len(KeysAt(Ctx, x.t, j, pc[1])) = Len(pc[1])
+\* the verdict at the smallest enclosing sub-value is the verdict on the whole corrupted value, which differs
+\* from the original (model terms only: quadratic in the size of the value)
+LocalIsGlobal == (IsVal /\ Mode = "model") =>
+  LET j == ToJ(Ctx, x.t, x.v) IN
+  \A pc \in AllCorr(Ctx, x.t, j) :
+    LET cj == Corrupt(Ctx, x.t, j, pc[1], pc[2])
+        r == FromJ(Ctx, x.t, cj)
+    IN /\ ~JEq(cj, j)
+       /\ r.ok = LocalFromJ(Ctx, x.t, j, pc[1], pc[2]).ok
+       /\ ~r.ok => r.why = "syntax"
 \* integer JSON: accepted exactly when in range, and then canonical (ToJ of the result is the input)
 IntJ == LET b == CASE x.base = 0 -> Zero [] x.base = 1 -> HalfPow(x.t.n) [] x.base = 2 -> Pow256(x.t.n)
             m == IF x.minus THEN (IF Ge(b, Of(x.d)) THEN Sub(b, Of(x.d)) ELSE Zero) ELSE Add(b, Of(x.d))
